@@ -10,6 +10,17 @@ COMMON_NOTE = ("Trusted base: TLC 1.8 evaluating the TLA+ specification in /veri
                "assumption of DESIGN 2.5 for the exhaustive part; simulated / random traces go beyond it.")
 
 CHECKS = {
+ "C03": dict(engine="Elementwise", design="3/C03",
+   text=("Elementwise.tla defines every element-wise operator position by position on integers with IEEE special "
+         "results encoded as uniformly typed rational triples; TLC checks the laws of that value domain, enumerates "
+         "ALL pairs of sparsity patterns of the two operands for arrays of up to 4 cells (6 / 8 cells for a subset "
+         "of operators) with sign-mixed value schemes, scalar / dense / sparse right-hand sides and varied stored "
+         "orders, and validates the results recorded from the real sptensor operators against Elementwise_Trace: "
+         "the result, sparse or dense, must denote the dense-semantics array at every position."),
+   technique="TLA+ spec Elementwise over a rational/IEEE value domain; TLC exhaustive pattern-pair generation; replay; TLC trace validation",
+   note=("Two upstream conventions are recorded as open known findings (sparse/sparse x/0 -> NaN, sparse/dense 0/0 -> 0); an "
+         "event is attributed to them only if the observed result is exactly what the convention produces. "
+         "Trusted base: TLC, bind.rat projection of floats to small rationals, apply() in harness/c03.py.")),
  "C02": dict(engine="Products", design="3/C02",
    text=("Products.tla defines every multilinear product by its explicit sum over indices; TLC cross-validates "
          "these definitions against independent ones (ttm via matricization, mttkrp via repeated ttv and via "
